@@ -166,15 +166,22 @@ def transcript_oracles(prop, ops, outs, rp, res):
             want = 1 if (kind == "rexec" or side == "A") else 0
             if cid % 2 != want:
                 res.violations.append(dict(case=case, what=f"id {cid} allocated by side {side if kind != 'rexec' else 'A'} has the wrong parity"))
-    if prop in ("C02", "C10") and getattr(rp, "digest", None):
+    if prop in ("C02", "C10", "C18") and getattr(rp, "digest", None):
         # no loss, model-free: every frame has been delivered (both pipes empty, nobody finished), side S registered a callback
         # on the conversation and never closed it itself, no callback failed: then what S obtained (receive before the
         # callback + the callback's log) is exactly what the peer sent successfully — also when S dropped its channel object
         # after setcallback (the callback lives on)
         import re as _re3
         if rp.digest.count("out=") == 2 and all(m.group(1) == "-" for m in _re3.finditer(r"\bout=(\S+)", rp.digest)) and "fin=1" not in rp.digest:
+            had_from_start = set()
+            for kind, cside, ccid in chans:
+                if kind == "rexec":
+                    had_from_start.update({("A", ccid), ("B", ccid)})   # the exec frame precedes every data frame
+                else:
+                    had_from_start.add((cside, ccid))                  # its creator; a peer that learns of the channel
+                                                                       # later may have dropped earlier items (no receiver yet)
             for (side, cid), calls in api.items():
-                if (side, cid) in aliased or (peer[side], cid) in aliased:
+                if (side, cid) in aliased or (peer[side], cid) in aliased or (side, cid) not in had_from_start:
                     continue
                 names = [nm for nm, _a, _o in calls]
                 if not any(nm == "setcb" and o == "ok" for nm, _a, o in calls) or "close" in names:
@@ -773,6 +780,20 @@ def scenario_ids(ctx, res, rng, idx, preempt=0):
         # scripts are looked up by channel id when the body starts: set them before the exec frame is handled is racy,
         # so bodies wait for their script
         threads = [sc.spawn(worker, t, name="creator%d" % t) for t in range(nthreads)]
+        if idx % 2 == 0:
+            # status queries in flight while channels are created (remote_status uses a channel id of its own)
+            def status_poller():
+                for _ in range(ncycles):
+                    try:
+                        st = gw.remote_status()
+                        if not isinstance(st.numchannels, int):
+                            problems.append("remote_status() returned %r" % (st,))
+                    except Exception as e:  # noqa: BLE001
+                        if isinstance(e, S.SchedAbort):
+                            raise
+                        problems.append("remote_status() concurrent with channel creation raised %r" % (e,))
+                        return
+            threads.append(sc.spawn(status_poller, name="status"))
         sc.join(threads)
         import gc
         gc.collect()
